@@ -40,33 +40,42 @@ _SINGLE_MESSAGE_OPS = {"PARSE", "NOPANIC", "CONS", "FILT", "STABLE"}
 
 
 def ambiguous_framing(req):
-    """For the single-message requests `<OP> <storage> ... <bytes>`: is the buffer one for which the
-    property texts allow BOTH 'incomplete' and 'rejection'?  That is the case when the standard
-    header is complete, the length field is smaller than the headers the header-type byte
-    announces, AND the buffer ends before those headers: "the buffer ends before the headers" and
-    "the declared length is too small" both hold and no property ranks them."""
+    """For the single-message requests `<OP> <storage> ... <bytes>` and the skipper `CONSUME <bytes>`:
+    is the buffer one for which the property texts allow BOTH 'incomplete' and 'rejection'?  That
+    is the case when the length field can be read (4 bytes of the standard header are there), it is
+    smaller than the headers the header-type byte announces, AND the buffer ends before those
+    headers: "the buffer ends before the headers" and "the declared length is too small" both hold
+    and no property ranks them."""
     t = req.split()
-    if not t or t[0] not in _SINGLE_MESSAGE_OPS or len(t) < 3 or not t[-1].startswith("x"):
+    if not t or not t[-1].startswith("x"):
         return False
     try:
         bs = bytes.fromhex(t[-1][1:])
     except ValueError:
         return False
-    if t[1] == "1":
-        k = bs.find(b"DLT\x01")
-        if k < 0 or len(bs) - k < 16:
+    if t[0] == "CONSUME":
+        # the skipper expects the storage header at the start of the buffer
+        if len(bs) < 16 or bs[:4] != b"DLT\x01":
             return False
-        bs = bs[k + 16:]
+        bs = bs[16:]
+    elif t[0] in _SINGLE_MESSAGE_OPS and len(t) >= 3:
+        if t[1] == "1":
+            k = bs.find(b"DLT\x01")
+            if k < 0 or len(bs) - k < 16:
+                return False
+            bs = bs[k + 16:]
+    else:
+        return False
     if len(bs) < 4:
         return False
     h = bs[0]
     std = 4 + 4 * ((h >> 2) & 1) + 4 * ((h >> 3) & 1) + 4 * ((h >> 4) & 1)
     allh = std + 10 * (h & 1)
     declared = (bs[2] << 8) | bs[3]
-    return len(bs) >= std and declared < allh and len(bs) < allh
+    return declared < allh and len(bs) < allh
 
 
-_VERDICT = re.compile(r"\bERR (INCOMPLETE( \S+)?|REJECT|HICKUP|UNRECOVERABLE)")
+_VERDICT = re.compile(r"(?:\bERR |^)(INCOMPLETE( (?:\d+|-|\?))?|REJECT|HICKUP|UNRECOVERABLE)(?![\w-])")
 
 
 class Cfg:
@@ -91,14 +100,14 @@ class Cfg:
         """projection compared between implementation and model (a_P)"""
         return canon(ans)
 
-    def corr_view(self, req, ans, spec=None):
+    def corr_view(self, req, ans, spec=None, model_ans=None):
         """what of an answer is compared between implementation and model for THIS request: outside
         the domain the property quantifies over, only what the property still claims there (e.g.
         panic-freedom), so that a rewrite that changes behaviour the property leaves open is not
         reported"""
         v = self.project_corr(ans)
         if ambiguous_framing(req):
-            v = _VERDICT.sub("ERR INCOMPLETE-OR-REJECT", v)
+            v = _VERDICT.sub("INCOMPLETE-OR-REJECT", v)
         return v
 
 
@@ -180,6 +189,12 @@ class C03(Cfg):
 
     def classify(self, req, ans, m=None):
         return req.split(" ", 1)[0] + ":" + ans.split(" ", 1)[0]
+
+    def corr_view(self, req, ans, spec=None, model_ans=None):
+        # the property is about crashes and about what is returned: WHICH error an input gets
+        # (incomplete, one of the rejection variants) is the subject of C02 / C04 / C05
+        v = super().corr_view(req, ans, spec, model_ans)
+        return re.sub(r"(?:\bERR |^)(INCOMPLETE-OR-REJECT|INCOMPLETE( (?:\d+|-|\?))?|REJECT|HICKUP|UNRECOVERABLE)(?![\w-])", "no-message", v)
 
 
 class C04(Cfg):
@@ -289,7 +304,7 @@ class C12(Cfg):
     def classify(self, req, ans, m=None):
         return "FIBEX:" + ans.split(" ", 1)[0]
 
-    def corr_view(self, req, ans, spec=None):
+    def corr_view(self, req, ans, spec=None, model_ans=None):
         # "ends with a model or a refusal, never a hang or a panic": which of the two a damaged
         # document gets, and what the model then holds, is C11's subject for well-formed documents
         # and otherwise left open
@@ -316,7 +331,7 @@ class C13(Cfg):
         n = int(t[2])
         return any(t[3 + 6 * k] in ("2", "4") for k in range(n))
 
-    def corr_view(self, req, ans, spec=None):
+    def corr_view(self, req, ans, spec=None, model_ans=None):
         # fixed-point kinds are not among the signal types the property lists: only "no input causes
         # a panic" is claimed for them
         if self.has_fixed_point(req):
@@ -406,7 +421,7 @@ class C17(Cfg):
         unit = 1000 if op == "FROMMS" else 1000000
         return n // unit < 2 ** 32 and n % unit != 0
 
-    def corr_view(self, req, ans, spec=None):
+    def corr_view(self, req, ans, spec=None, model_ans=None):
         # the property quantifies over counts whose whole seconds fit in 32 bits
         return self.project_corr(ans) if self.nontrivial_domain(req) else "out-of-domain"
 
@@ -442,7 +457,7 @@ class C18(Cfg):
         what = "reference:exactly" if spec.startswith("some") else "reference:nothing" if spec == "none" else "reference:silent"
         return "REAL:" + ans.split(" ", 1)[0] + ":" + what
 
-    def corr_view(self, req, ans, spec=None):
+    def corr_view(self, req, ans, spec=None, model_ans=None):
         # where the property's premise does not hold (negative product, sum outside 0..2^63, 128-bit
         # values, non-finite quantization) only "never panics" is claimed
         if spec == "skip":
@@ -562,12 +577,19 @@ class C07(Cfg):
                 body = body[:-1]
         return " ; ".join(body + ["EOS"])
 
-    def corr_view(self, req, ans, spec=None):
-        return self.tail_norm(self.project_corr(ans), spec)
+    @staticmethod
+    def any_error(seq):
+        """a piece that does not parse yields "an error": a piece is cut at its declared length, so
+        'incomplete' arises for it only where the length field is smaller than the headers - where
+        the property texts allow incomplete and rejection alike"""
+        return re.sub(r"\bE (INCOMPLETE|HICKUP|UNRECOVERABLE|REJECT)\b", "E", seq)
+
+    def corr_view(self, req, ans, spec=None, model_ans=None):
+        return self.any_error(self.tail_norm(self.project_corr(ans), spec))
 
     def spec_ok(self, req, ans, spec):
-        # the property speaks of "an error": the two rejection variants are one class
-        return self.tail_norm(canon(ans), spec) == self.tail_norm(canon(spec), spec)
+        # the property speaks of "an error": the rejection variants are one class
+        return self.any_error(self.tail_norm(canon(ans), spec)) == self.any_error(self.tail_norm(canon(spec), spec))
 
 
 class C08(C07):
@@ -594,7 +616,7 @@ class C09(Cfg):
     def nontrivial(self, req, ans, m=None):
         return ans.startswith("ITEM")
 
-    def corr_view(self, req, ans, spec=None):
+    def corr_view(self, req, ans, spec=None, model_ans=None):
         # the property speaks about messages (the unfiltered parse yields one); what a filter does to
         # input that is not a message is left open
         if req.startswith("FILT") and not ans.startswith("ITEM"):
@@ -633,6 +655,14 @@ class C10(Cfg):
         if spec == "na":   # the parts are not cut at message boundaries of this (malformed) stream
             return True
         return re.sub(r" n=\d+$", "", spec) == ans
+
+    def corr_view(self, req, ans, spec=None, model_ans=None):
+        # the property quantifies over well-formed message streams: where the model refuses the
+        # stream (truncated, damaged) nothing is claimed - an implementation may refuse it too, or
+        # report what it has counted so far
+        if model_ans is not None and model_ans.startswith("ERR"):
+            return "not-a-well-formed-stream"
+        return self.project_corr(ans)
 
 
 REGISTRY = {c.__name__: c for c in (C01, C02, C03, C04, C05, C06, C11, C12, C07, C08, C09, C10, C13, C14, C15, C16, C17, C18, C19)}
